@@ -10,9 +10,9 @@ import pipeline
 PROPS = ["PropC03a", "PropC03b", "PropC03c"]
 
 
-def cfg(depth, prefixes, emit, props=(), walk=0):
+def cfg(depth, prefixes, emit, props=(), walk=0, uris="app"):
     return dict(spec="Spec", view="View",
-                constants={"MaxDepth": depth, "UsePrefixes": tla_set(prefixes),
+                constants={"MaxDepth": depth, "UsePrefixes": tla_set(prefixes), "UriSet": json.dumps(uris),
                            "Emit": json.dumps(emit), "WalkLen": walk},
                 properties=list(props), invariants=[])
 
@@ -41,6 +41,12 @@ def run(tier, seed):
     if B2["errors"] or not B2["complete"]:
         raise MachineryError("behaviour generation (B2) failed: %s" % B2["errors"][:3])
     behaviours += [(h, len(h)) for h in B2["tr"]]
+    # the PROV / XSD namespace URIs under prefixes other than prov / xsd (and as default namespace)
+    B3 = tlcrun.run_mc("C03/B3", "MC_C03", cfg(dB if not quick else 2, ["p", "xsd", ""], "all", uris="builtin"),
+                       workers=1, timeout=3000, heap="8g")
+    if B3["errors"] or not B3["complete"]:
+        raise MachineryError("behaviour generation (B3) failed: %s" % B3["errors"][:3])
+    behaviours += [(h, len(h)) for h in B3["tr"]]
     # seeded random walks of the same model, longer and not shortest: checked at every step
     dS = 10 if quick else 14
     nS = 300 if quick else 3000
